@@ -250,7 +250,7 @@ impl LogState {
         if let Some((fid, ..)) = info.as_ref() {
             redo::verif::point("log.enter", &format!("{} {}", fid, was_locked as i32));
         }
-        let mut line_head = String::new();
+        let mut line_head: Vec<u8> = Vec::new();
         let mut width = tty_width();
         loop {
             if f.is_none() {
@@ -282,13 +282,11 @@ impl LogState {
                 // In 'follow' mode, might get a line with no trailing \n
                 // (eg. when ./configure is halfway through a test), which we
                 // deal with below.
-                // Scripts may write bytes that are not UTF-8: show them as
-                // replacement characters rather than give up on the whole log.
                 let mut buf = Vec::new();
                 f.read_until(b'\n', &mut buf)?;
-                String::from_utf8_lossy(&buf).into_owned()
+                buf
             } else {
-                String::new()
+                Vec::new()
             };
             #[cfg(feature = "verif")]
             if line.is_empty() {
@@ -354,15 +352,20 @@ impl LogState {
             }
             self.total_lines += 1;
             delay = Duration::from_millis(10);
-            if !line.ends_with('\n') {
-                line_head.push_str(&line);
+            if !line.ends_with(b"\n") {
+                line_head.extend_from_slice(&line);
                 continue;
             }
             if !line_head.is_empty() {
-                line_head.push_str(&line);
-                line = String::new();
+                line_head.extend_from_slice(&line);
+                line = Vec::new();
                 mem::swap(&mut line, &mut line_head);
             }
+            // Scripts may write bytes that are not UTF-8: show them as replacement
+            // characters rather than give up on the whole log.  Only a complete line
+            // is decoded: in 'follow' mode the two halves of a multi-byte character
+            // may arrive in different reads.
+            let line = String::from_utf8_lossy(&line).into_owned();
             if !self.status.is_empty() {
                 io::stdout().flush()?;
                 eprint!("\r{:<width$.width$}\r", "", width = width);
@@ -476,7 +479,7 @@ impl LogState {
         }
         if !line_head.is_empty() {
             // partial line never got terminated
-            print!("{}", line_head);
+            print!("{}", String::from_utf8_lossy(&line_head));
         }
         if t.as_str() != "-" {
             let last = self.depth.pop();
